@@ -17,6 +17,7 @@ func init() {
 	zzsv.Register("ZZ_C18_Generated", ZZ_C18_Generated)
 	zzsv.Register("ZZ_C18_Literals", ZZ_C18_Literals)
 	zzsv.Register("ZZ_C18_Operands", ZZ_C18_Operands)
+	zzsv.Register("ZZ_C18_LongPrograms", ZZ_C18_LongPrograms)
 }
 
 type zzInstr struct {
@@ -226,7 +227,7 @@ func ZZ_C18_Generated(sv *zzsv.T) {
 		src = p.text()
 		vars, order = g.vars, g.order
 	} else {
-		k := sv.Choice("scenario", 16)
+		k := sv.Choice("scenario", 19)
 		clash := []string{"a", "b"}[sv.Choice("clash", 2)]
 		src = zzScopeProgram(sv, k, clash, xVar("arr")).text()
 	}
@@ -299,4 +300,19 @@ func ZZ_C18_Operands(sv *zzsv.T) {
 	zzVerifyEval(sv, "C18.operands", e)
 	out, rerr := e.Execute(nil)
 	zzDescribe(sv, "result", out, rerr)
+}
+
+// ZZ_C18_LongPrograms: code longer than 256 bytes (jump operands whose high
+// byte is not zero, targets moved across a 256-byte boundary by the
+// optimizer), every padding length; also inside a function body.
+func ZZ_C18_LongPrograms(sv *zzsv.T) {
+	src := zzLongProgram(sv)
+	if sv.Choice("infunction", 2) == 1 {
+		src = "function big(A, p) { " + src + " } return big(1, 0);"
+	}
+	sv.Note("script", src)
+	var trace []object.Object
+	e, err := zzPrepare(sv, src, map[string]zv{"A": zInt(5), "p": zInt(0)}, []string{"A", "p"}, sv.Choice("noopt", 2) == 1, &trace)
+	sv.Assume(err == nil)
+	zzVerifyEval(sv, "C18.long", e)
 }
